@@ -38,6 +38,11 @@ CHECKS = {
             'Trusted: Coq kernel, translator (API table), harness (SimChild through the public spawn hook, paused tokio clock). tokio select!/mpsc/timers, process-wrap and the OS are modelled: select! as a free choice among ready branches, kill = start_kill + wait. The hand-written task model (Job/JobModel.v) is tied to task.rs / priority.rs / state.rs by the membership correspondence. No axioms.',
             'Rocq/Coq invariant proof by induction over labels + membership correspondence on a paused-clock runtime',
             "DESIGN.md section 5.4 and 6 C04"),
+    "C05": (True,
+            'Coq proofs on a run-level model of the CLI action logic: start-up run unless --postpone; a change while idle starts the command in every mode; do-nothing changes nothing; signal mode delivers exactly one signal, the configured one (--signal, else --stop-signal, else TERM) and nothing else; restart stops with the stop signal and starts one fresh run; queue: any number of changes during a run give exactly one further run when it ends; freshness invariants for restart (always) and queue (a pending change implies running and queued) over every event sequence; --signal / -r shorthands; non-overlap from the C04 theorem. PARTIAL: handling of one batch is atomic in the model (queue-flag reset window not modelled). The real CLI handler is run in-process with real child processes on 64 generated scenarios per run.',
+            'Trusted: Coq kernel, harness (h_cli onbusy: clap parse, make_config, Watchexec::main, real job supervisor, helper child logging start/signals/exit). Real time: change batches and exits closer than 30 ms are not ordered by the observation and skipped. No axioms.',
+            'Rocq/Coq proof over a run-level model + in-process differential runs of the real CLI handler with real children',
+            "DESIGN.md section 6 C05"),
     "C06": (True,
             'Coq proofs on the job task model: a graceful control signals at once and arms the timer for now+grace without killing; the forced stop is enabled only at or after the deadline and (repaired code) immediately at it, killing and reaping at that instant; no normal control is taken while a timer is armed; the restart marker exists only together with its armed timer (so the restart happens once) for all API-shaped label sequences. Refutation witness for the pinned double restart. Same membership correspondence as C04 plus timing monitors on unambiguous histories.',
             'Trusted: Coq kernel, translator (API table), harness (SimChild through the public spawn hook, paused tokio clock). tokio select!/mpsc/timers, process-wrap and the OS are modelled: select! as a free choice among ready branches, kill = start_kill + wait. The hand-written task model (Job/JobModel.v) is tied to task.rs / priority.rs / state.rs by the membership correspondence. No axioms.',
